@@ -146,6 +146,7 @@ class Run:
         self.sim = simgrpc.Sim(None)
         self.sim.numeric_enums = bool((world.spec.get("options") or {}).get("rest-numeric-enums"))
         self.sim.json_pool = world.codec.pool
+        self.sim.unknown_reply_field = bool(scenario.get("unknown_reply_field"))
         self.sim.http_error_body = scenario.get("http_error_body")      # None (google.rpc JSON) | "html" | "empty"
         self.server = server_factory(self)
         self.sim.server = self.server
